@@ -394,12 +394,17 @@ class DirectionalVariogram(Variogram):
         # (a - b).[1,0] = ||a - b|| * ||[1,0]|| * cos(v)
         # cos(v) = (a - b).[1,0] / ||a - b||
         # cos(v) = (a.[1,0] - b.[1,0]) / ||a - b||
-        scalar = pdist(np.array([np.dot(_x, [1, 0])]).T, np.subtract)
+        # (pdist does not accept np.subtract as a metric anymore; use the
+        # index pairs of the condensed distance vector, i < j, instead)
+        _i, _j = np.triu_indices(len(_x), k=1)
+        _xc = np.dot(_x, [1, 0])
+        scalar = _xc[_i] - _xc[_j]
         pos_angles = np.arccos(scalar / self._euclidean_dist)
 
         # cos(v) for [2,1] and [2, -1] is the same,
         # but v is not (v vs -v), fix that.
-        ydiff = pdist(np.array([np.dot(_x, [0, 1])]).T, np.subtract)
+        _yc = np.dot(_x, [0, 1])
+        ydiff = _yc[_i] - _yc[_j]
 
         # store the angle or negative angle, depending on the
         # amount of the x coordinate
